@@ -474,7 +474,11 @@ class Monitor(object):
             except Exception as e:
                 ctx.violation('log-replay:raises:%s' % type(e).__name__, case, 'replayable', repr(e)[:160])
             # 2. card export / import
-            if sh.heights and not sh.jo_pass:
+            fine = any(('%.2f' % h) != str(h) and float('%.2f' % h) != float(h) for h in sh.heights)
+            if fine:
+                # the card prints bars to the centimetre: a bar set between two centimetres cannot be exported faithfully
+                ctx.count('unspecified.card-round-trip-with-sub-centimetre-bar')
+            elif sh.heights and not sh.jo_pass:
                 try:
                     e = self.H.from_matrix(comp.to_matrix(['bib']))
                     if observable(e) != observable(comp):
@@ -623,6 +627,9 @@ class Explorer(object):
         self.transitions = 0
         self.refused = 0
         self.probed = 0
+        self.fine_bars = False
+        self.base_height = D('1.00')
+        self.float_heights = False
 
     def start(self, nj):
         c = self.H()
@@ -641,9 +648,11 @@ class Explorer(object):
             room = n_jo < max_jo
         if room:
             if last is None:
-                out += [('set_bar_height', D('1.00'))] + ([] if legal_only else [('set_bar_height', D('0.00')), ('set_bar_height', D('-1.00'))])
+                out += [('set_bar_height', self.base_height)] + ([] if legal_only else [('set_bar_height', D('0.00')), ('set_bar_height', D('-1.00'))])
             else:
                 out.append(('set_bar_height', last + D('0.05')))
+                if self.fine_bars:
+                    out.append(('set_bar_height', last + D('0.004')))      # a rise of less than a centimetre is a rise
                 if not legal_only or in_jo:
                     out += [('set_bar_height', last), ('set_bar_height', last - D('0.02'))]
                 if in_jo and sh.jo_start is not None and sh.jo_start > 0:
@@ -732,10 +741,16 @@ class Explorer(object):
                 a = rnd.choice([b for b in bibs if b not in sh.bibs] or bibs) if r < 0.65 else rnd.choice(bibs)
             elif r < 0.22 or not sh.heights:
                 m = 'set_bar_height'
-                if sh.heights:
-                    a = sh.heights[-1] + rnd.choice([D('0.05'), D('0.05'), D('0.03'), D('0'), D('-0.02'), D('-0.10')])
+                if self.float_heights:
+                    # bars set with floats, as the repository's own tests do; one-centimetre steps
+                    if sh.heights:
+                        a = round(sh.heights[-1] + rnd.choice([0.01, 0.01, 0.01, 0.02, 0.05, 0.0, -0.02]), 2)
+                    else:
+                        a = rnd.choice([2.00, 2.04, 2.28, 1.12, 4.59, 5.05, 1.99, 0.57, 1.00])
+                elif sh.heights:
+                    a = sh.heights[-1] + rnd.choice([D('0.05'), D('0.05'), D('0.03'), D('0.01'), D('0.004'), D('0'), D('-0.02'), D('-0.10')])
                 else:
-                    a = rnd.choice([D('1.00'), D('1.50'), D('0.00'), D('1.20')])
+                    a = rnd.choice([D('1.00'), D('1.50'), D('0.00'), D('1.20'), D('9.90'), D('99.95'), D('181.00'), D('0.50'), D('1.9812')])
             elif r < 0.26:
                 m = 'add_jumper'
                 a = rnd.choice(bibs + ['E'])
@@ -755,18 +770,43 @@ class Explorer(object):
         self.states += 1
         return c
 
-    def walk_probe(self, nj, maxlen=60, max_reg=4, max_jo=3):
+    def walk_probe(self, nj, maxlen=60, max_reg=4, max_jo=3, jumpoff_prefix=False):
         """A random rule-conforming history (deep: several heights, eliminations at different heights, jump-offs) with
         every OTHER call of the alphabet probed on a clone at every step."""
         rnd = self.rnd
+        self.base_height = rnd.choice([D('1.00'), D('1.00'), D('2.28'), D('9.90'), D('1.9812'), D('181.00')])
+        self.fine_bars = rnd.random() < 0.5
         c = self.start(nj)
         sh = c._vf_shadow
+        if jumpoff_prefix:
+            # go straight to a jump-off: everybody clears the first height, then everybody (or all but a retiring /
+            # earlier-eliminated one) fails out at the second
+            h = self.base_height
+            self.apply(c, 'set_bar_height', h)
+            for b in list(sh.bibs):
+                self.apply(c, rnd.choice(['cleared', 'cleared', 'cleared', 'failed']), b)
+            for b in list(sh.bibs):
+                if sh.card(b) == 'x':
+                    self.apply(c, 'cleared', b)
+            self.apply(c, 'set_bar_height', h + D('0.05'))
+            for b in list(sh.bibs):
+                for k in range(3):
+                    if c.state in ('started',):
+                        self.apply(c, 'failed', b)
         for step in range(maxlen):
             legal = self.calls(c, nj, max_reg, max_jo, True)
             for m, a in self.calls(c, nj, max_reg, max_jo, False):
                 if (m, a) not in legal:
                     self.apply(clone(c), m, a)
                     self.probed += 1
+            if c.state == 'jumpoff' and rnd.random() < (0.45 if jumpoff_prefix else 0.3):
+                places = {j.bib: j.place for j in c.jumpers}
+                openmoves = [(m, a) for (m, a) in self.calls(c, nj, max_reg, max_jo, False)
+                             if (m, a) not in legal and m in ('passed', 'set_bar_height') and not must_refuse(sh, places, m, a)]
+                if openmoves:
+                    m, a = rnd.choice(openmoves)
+                    self.apply(c, m, a)
+                    continue
             if not legal:
                 break
             trials = [x for x in legal if x[0] != 'set_bar_height']
@@ -813,7 +853,8 @@ class Explorer(object):
                 if len(c.heights) >= max_reg and c.state != 'won':
                     # last regular height: everybody still in fails out or retires
                     pass
-                h = (c.heights[-1] if c.heights else D('1.00')) + D('0.05')
+                h = (c.heights[-1] + rnd.choice([D('0.05'), D('0.05'), D('0.03'), D('0.01')])) if c.heights else \
+                    rnd.choice([D('1.00'), D('1.00'), D('2.10'), D('4.40'), D('9.90'), D('9.96'), D('99.95'), D('181.00'), D('0.50')])
             if not self.apply(c, 'set_bar_height', h):
                 break
             places = {j.bib: j.place for j in c.jumpers}
